@@ -2,7 +2,7 @@
 
 pub use debruijn::kmer::{
     IntKmer, Kmer10, Kmer12, Kmer14, Kmer15, Kmer16, Kmer2, Kmer20, Kmer24, Kmer3, Kmer30, Kmer32,
-    Kmer4, Kmer40, Kmer48, Kmer5, Kmer6, Kmer64, Kmer8, VarIntKmer, K31, K4,
+    Kmer4, Kmer40, Kmer48, Kmer5, Kmer6, Kmer64, Kmer8, VarIntKmer, K12, K24, K3, K31, K4, K6,
 };
 use debruijn::Kmer;
 
@@ -10,6 +10,14 @@ use debruijn::Kmer;
 pub type Kmer31 = VarIntKmer<u64, K31>;
 /// Full-width VarIntKmer (4 bases in a u8): the "unused bits = 0" corner of the partial-width code.
 pub type Kmer4v = VarIntKmer<u8, K4>;
+
+/// Instantiations of the public generic type with MORE storage than the shipped alias uses (every (T, K)
+/// with 2K <= bits(T) is a legitimate k-mer type built from shipped parts).
+pub type Kmer3w = VarIntKmer<u16, K3>;
+pub type Kmer6w = VarIntKmer<u32, K6>;
+pub type Kmer12w = VarIntKmer<u64, K12>;
+pub type Kmer24w = VarIntKmer<u128, K24>;
+pub type Kmer31w = VarIntKmer<u128, K31>;
 
 /// Builder signature used with the macros below:
 /// `fn build<K: Kmer + ...>(name: &'static str, env: &Env) -> Vec<Box<dyn Job>>`
@@ -25,7 +33,8 @@ macro_rules! kmers_list {
 macro_rules! kmers_all {
     ($f:ident, $out:expr, $env:expr) => {
         $crate::kmers_list!($f, $out, $env; Kmer2, Kmer3, Kmer4, Kmer4v, Kmer5, Kmer6, Kmer8, Kmer10,
-            Kmer12, Kmer14, Kmer15, Kmer16, Kmer20, Kmer24, Kmer30, Kmer31, Kmer32, Kmer40, Kmer48, Kmer64)
+            Kmer12, Kmer14, Kmer15, Kmer16, Kmer20, Kmer24, Kmer30, Kmer31, Kmer32, Kmer40, Kmer48, Kmer64,
+            Kmer3w, Kmer6w, Kmer12w, Kmer24w, Kmer31w)
     };
 }
 
